@@ -653,3 +653,6 @@ seed("c14-exp-cos-sin", "C14", CE, "Complex::new( a * f64::cos(self.imag), a * f
 seed("c14-powf-angle", "C14", CE, "        let b = x * theta;", "        let b = 0.5 * x * theta;", "pow/powf")
 seed("n-c14-commuted", "C14", CT, "Cmplx::new(self.real.sin() * self.imag.cosh(), self.real.cos() * self.imag.sinh())", "Cmplx::new(self.imag.cosh() * self.real.sin(), self.imag.sinh() * self.real.cos())", "SILENT", "commuted factors")
 seed("n-c14-neg-placement", "C14", CT, "Cmplx::new(self.real.cos() * self.imag.cosh(), -self.real.sin() * self.imag.sinh())", "Cmplx::new(self.real.cos() * self.imag.cosh(), -( self.real.sin() * self.imag.sinh() ))", "SILENT", "sign placement")
+
+seed("c20-setcol-rows", "C20", OPS, 'if self.cols <= col { panic!( "Matrix range error in set_col" ); }',
+     'if self.rows <= col { panic!( "Matrix range error in set_col" ); }', "reject/matrix::Matrix<T>::set_col", "the original defect")
